@@ -261,7 +261,15 @@ def random_history(ck: Check):
     lo = [b[0] for b in grid.axes_bounds] if grid is not None else [0.0] * dim
     nfr = rng.choice([1, 2, 3, 4, 6])
     style = rng.choice(["moving", "moving", "moving", "chaos"])
-    cls = rng.choice([SphericalDroplet, DiffuseDroplet])
+    cls0 = rng.choice([SphericalDroplet, DiffuseDroplet])
+    # diffuse droplets WITH an interface width (wide ones too): tracking looks at radii only, the width must not matter
+    wmode = rng.choice(["none", "narrow", "wide"])
+
+    def cls(p, r):
+        if cls0 is SphericalDroplet or wmode == "none":
+            return cls0(p, r)
+        return DiffuseDroplet(p, r, rng.uniform(0.05, 0.3) if wmode == "narrow" else rng.uniform(1.0, 4.0))
+
     frames = []
     pop = []
     for _ in range(rng.choice([0, 1, 2, 3, 4])):
